@@ -239,6 +239,33 @@ var specs = map[string]Spec{
 		QuickFloors: map[string]int64{"acl_calls": 3000, "denied": 1400, "forwarded": 1400, "list_namespaces_calls": 300},
 		MaxSamples:  2,
 	},
+	"C17": {
+		Engine: "utf8", Run: "^TestRepair$", Race: false,
+		QuickShards: 16, ThoroughShards: 16, QuickWatchdog: 8 * time.Minute, ThoroughWatchdog: 60 * time.Minute,
+		Level:     "exploration",
+		LevelText: "Wire bytes are produced from random messages built in the legacy gogo schema (what an old server can emit) and decoded by the real RepairUTF8Codec: (1) valid data, legacy-built and current-schema (with fields the legacy schema does not know), must decode exactly as the standard codec decodes it; (2) invalid byte sequences (lone continuation, truncated, overlong, surrogates, 0xFF runs) in 1-3 failure messages at cause depths 1-10 must decode successfully, with every string valid and the message equal to the same message built with the sanitised text (runs of U+FFFD collapsed, so one-per-run and one-per-byte are both accepted); (3) invalid UTF-8 in any other string field, chains beyond depth 10, truncated and bit-flipped encodings must never come back with a nil error and an invalid string, and must agree with the standard codec's accept/reject verdict. The history-blob repair path is driven through the real namespace translator: a blob it reports success on must decode with the standard decoder and equal the sanitised blob.",
+		LevelNote: "Trusted: gogo marshalling of the legacy structs, the reference decode by google.golang.org/protobuf, the sanitised-twin construction. The oracle never calls strings.ToValidUTF8.",
+		Technique: "runtime monitor: differential decoding (real repair codec vs standard codec on a sanitised twin of the same legacy message), string-validity walk of every result, random + corrupted encodings",
+		DesignRef: "DESIGN.md §4 C17",
+		Rule:      "cases = blocks of 50 random legacy messages, each assigned one of six modes (valid / dirty failures x2 / dirty other string / too-deep chain / garbled), blocks of 100 current-schema messages, one blob-repair block; distinct = (mode, root type) pairs observed",
+		Assumptions: []string{"legacy messages are generated by reflection over the proto/1_22 structs; enum values 0..2; depth-bounded"},
+		QuickFloors: map[string]int64{"valid_messages": 2000, "dirty_failure_messages": 300, "repaired_faithfully": 300, "rejected_as_expected": 200, "garbled_encodings": 300, "blob_repairs": 500},
+		MaxSamples:  2,
+	},
+	"C18": {
+		Engine: "utf8", Run: "^TestReach$", Race: false,
+		QuickShards: 16, ThoroughShards: 16, QuickWatchdog: 8 * time.Minute, ThoroughWatchdog: 60 * time.Minute,
+		Level:     "exploration",
+		LevelText: "For every request/response type that has a legacy counterpart and can reach a failure (21 roots, list committed so that a root dropped from the conversion tables is noticed), every structural path from the legacy struct to a Failure is enumerated by reflection (through pointers, slices, maps, oneof wrappers; each struct type at most twice per path); for each path and cause depth 1, 2, 5, 10 a minimal legacy message with an invalid failure message there is marshalled and decoded by the real codec: it must succeed, every string must be valid, and the result must equal the same message built with the sanitised text; then all paths of the root at once.",
+		LevelNote: "Paths through a oneof pick one wrapper each; the 'all at once' message keeps the last wrapper chosen per oneof slot. Supported depth (10) is the repository's constant, probed at its boundary here and beyond it in C17.",
+		Technique: "runtime monitor: reflection-enumerated structural paths over the legacy schema, one injected fault per path, differential decode against a sanitised twin",
+		DesignRef: "DESIGN.md §4 C18",
+		Rule:      "cases = one per supported root (all its paths x 4 cause depths + all-at-once); distinct = (root, path) pairs; all non-trivial",
+		Exhaustive: "every structural path (recursion bound 2) from every down-convertible root type to a failure message",
+		Assumptions: []string{"supported roots = request/response types with a registered legacy struct that reach a Failure; the list of 21 such roots is committed (utf8/supported_roots.txt)"},
+		QuickFloors: map[string]int64{"reach_cases": 600, "repaired_ok": 600},
+		MaxSamples:  2,
+	},
 	"C05": {
 		Engine: "ringmodel", Run: "^TestRing$", Race: false,
 		QuickShards: 16, ThoroughShards: 16, QuickWatchdog: 5 * time.Minute, ThoroughWatchdog: 40 * time.Minute,
